@@ -554,7 +554,68 @@ let run_wsjson kvs ikvs =
      | _ -> "readfailed=false closecode=-1 laterwritefails=false")
   | _ -> "equal=true"
 
+(* ---- suite life: the scenario's abstract schedule in Model/Life.v ---- *)
+type lact = RunCall of int | IOok of int | IOfail of int | Cancel of int | TL | Timer of int
+
+let run_life kvs _ =
+  let scen = get kvs "scen" in
+  let secs z = 1000 * int_of_z z in
+  let b_write = secs c_timeoutWriteClose and b_wait = secs c_timeoutWaitCloseHandshake in
+  (* programs, schedule, groups of model calls per harness step of thread 0 (and extra observed threads), bound in ms *)
+  let rd c = LRead (nat_of_int c) and wr c = LWrite (nat_of_int c) in
+  let close_ = LClose (nat_of_int 50, nat_of_int 51) in
+  let sect t = [RunCall t; IOok t; RunCall t] in
+  let (progs, sched, groups, bound) : ((int * lcall list) list) * lact list * (int * int) list * int =
+    match scen with
+    | "write-then-cancel" -> ([0, [wr 1; wr 2]], sect 0 @ [Cancel 1; TL] @ sect 0, [(0, 1); (0, 1)], 0)
+    | "read-then-cancel" -> ([0, [rd 1; rd 1; rd 2; rd 2]], sect 0 @ sect 0 @ [Cancel 1; TL] @ sect 0 @ sect 0, [(0, 2); (0, 2)], 0)
+    | "fragread-then-cancel" | "compressed-read-then-cancel" ->
+      (* several frames (sections) under the same context, a Ping answered in between (a write section under a child context) *)
+      ([0, [rd 1; rd 1; wr 3; rd 1; rd 1; rd 1; rd 2; rd 2]],
+       sect 0 @ sect 0 @ sect 0 @ sect 0 @ sect 0 @ sect 0 @ [Cancel 1; Cancel 3; TL] @ sect 0 @ sect 0, [(0, 6); (0, 2)], 0)
+    | "ping-then-cancel" -> ([(0, [LCloseRead (nat_of_int 9, nat_of_int 100); wr 1; wr 2]); (100, [])], [RunCall 0; RunCall 100] @ sect 0 @ [Cancel 1; TL] @ sect 0, [(0, 1); (0, 1); (0, 1)], 0)
+    | "cancel-during-read" | "deadline-during-read" -> ([0, [rd 1]], [RunCall 0; Cancel 1; TL; RunCall 0], [(0, 1)], 0)
+    | "cancel-during-write" -> ([0, [wr 1]], [RunCall 0; Cancel 1; TL; RunCall 0], [(0, 1)], 0)
+    | "closenow-reader-blocked" -> ([(0, [LCloseNow]); (1, [rd 1])], [RunCall 1; RunCall 0; TL; RunCall 0; RunCall 1], [(0, 1); (1, 1)], 0)
+    | "closenow-writer-blocked" -> ([(0, [LCloseNow]); (1, [wr 1])], [RunCall 1; RunCall 0; TL; RunCall 0; RunCall 1], [(0, 1); (1, 1)], 0)
+    | "closenow-idle" -> ([0, [LCloseNow]], [RunCall 0; TL; RunCall 0], [(0, 1)], 0)
+    | "close-echo" -> ([0, [close_]], [RunCall 0; IOok 0; RunCall 0; IOok 0; RunCall 0; TL; RunCall 0], [(0, 1)], 0)
+    | "close-silent-peer" | "close-peer-floods" | "close-peer-stalls-mid-frame" ->
+      ([0, [close_]], [RunCall 0; IOok 0; RunCall 0; Cancel 51; TL; RunCall 0; TL; RunCall 0], [], b_wait)
+    | "close-peer-never-reads" -> ([0, [close_]], [RunCall 0; Cancel 50; TL; RunCall 0; TL; RunCall 0], [], b_write + b_wait)
+    | "close-peer-half-close" -> ([0, [close_]], [RunCall 0; IOok 0; RunCall 0; IOfail 0; RunCall 0; TL; RunCall 0], [], 0)
+    | "closeread-data-echo" | "closeread-peer-close" -> ([(0, [LCloseRead (nat_of_int 9, nat_of_int 100)]); (100, [])], [RunCall 0; RunCall 100; IOok 100; RunCall 100; TL], [(0, 1)], 0)
+    | "closeread-data-silent" -> ([(0, [LCloseRead (nat_of_int 9, nat_of_int 100)]); (100, [])], [RunCall 0; RunCall 100; IOok 100; RunCall 100; TL], [(0, 1)], b_wait)
+    | "closeread-then-closenow" -> ([(0, [LCloseRead (nat_of_int 9, nat_of_int 100); LCloseNow]); (100, [])], [RunCall 0; RunCall 100; RunCall 0; TL; RunCall 100; RunCall 0], [(0, 1)], 0)
+    | _ -> ([], [], [], 0) in
+  if progs = [] then Printf.sprintf "res=any closed=any boundms=%d goroutines=ok" bound else begin
+    let st = ref (linit (fun t -> try List.assoc (int_of_nat t) progs with Not_found -> [])) in
+    let stepn e = match lstep !st e with Some s -> st := s; true | None -> false in
+    let nres t = List.length (!st.l_thr (nat_of_int t)).lresults in
+    List.iter (fun a -> match a with
+      | RunCall t -> let n0 = nres t in let k = ref 0 in
+        while nres t = n0 && !k < 40 && (stepn (LStep (nat_of_int t, false))) do incr k done
+      | IOok t -> ignore (stepn (LIOReady (nat_of_int t)))
+      | IOfail t -> ignore (stepn (LIOFail (nat_of_int t)))
+      | Cancel c -> ignore (stepn (LCancel (nat_of_int c)))
+      | TL -> ignore (stepn LTimeout)
+      | Timer t -> ignore (stepn (LWaitTimer (nat_of_int t)))) sched;
+    (* results per harness step: a group of consecutive model calls of a thread, ok iff all ROk *)
+    let taken = Hashtbl.create 4 in
+    let res = List.map (fun (t, n) ->
+      let all = List.rev (!st.l_thr (nat_of_int t)).lresults in
+      let off = try Hashtbl.find taken t with Not_found -> 0 in
+      Hashtbl.replace taken t (off + n);
+      let grp = List.filteri (fun i _ -> i >= off && i < off + n) all in
+      if List.length grp < n then "blocked" else if List.for_all (fun (_, r) -> r = ROk) grp then "ok" else "err") groups in
+    let res = if scen = "ping-then-cancel" then List.tl res else res in   (* the CloseRead call itself is not a recorded step of the harness *)
+    let gor = if !st.l_closed && not !st.l_tl_exited then "timeoutLoop-running" else
+        (match !st.l_cr with Some g when !st.l_closed && (!st.l_thr g).lp <> LExited -> "closeRead-running" | _ -> "ok") in
+    Printf.sprintf "res=%s closed=%s boundms=%d goroutines=%s" (if res = [] then "any" else String.concat "," res) (if !st.l_closed then "1" else "0") bound gor
+  end
+
 let suites : (string * ((string * string) list -> (string * string) list -> string)) list = [
+  "life", run_life;
   "netconn", run_netconn;
   "wsjson", run_wsjson;
   "sched", run_sched;
